@@ -55,10 +55,12 @@ class BaseInterval(ABC):
         """
         vmin, vmax = self.get_limits(values)
 
-        # subtract vmin
-        values = np.subtract(values, vmin)
+        # integer data is converted first: unsigned subtraction would wrap around below vmin
+        values = np.asarray(values)
         if np.issubdtype(values.dtype, np.integer):
             values = values.astype(np.float64)
+        # subtract vmin
+        values = np.subtract(values, vmin)
         # divide by interval
         if (vmax - vmin) != 0.0:
             np.true_divide(values, vmax - vmin, out=values)
